@@ -15,7 +15,8 @@ CONFIG = {
                    "path form (relative, POSIX, no '..') and reference digests of the bytes on disk in every requested format."),
     "level_note": ("Ignore matching in the model is pathspec on the path relative to the command root, restricted to pattern "
                    "forms whose meaning is position independent; -sf beneath a folder with files matching non-default "
-                   "history patterns is n/a (C02 and C12 disagree there); symlinks are not generated."),
+                   "history patterns is n/a (C02 and C12 disagree there); hard links (two names of one inode, each a file of "
+                   "its own) are generated, symbolic links are not."),
     "technique": "deterministic simulation: seeded tree/history/option exploration against an independent record-set model",
     "quick": {"runs": 2000, "budget_s": 120},
     "thorough": {"runs": 8000, "budget_s": 540},
@@ -24,7 +25,7 @@ CONFIG = {
              "present, exit); non-trivial = a create that wrote at least one manifest with at least one record."),
 }
 
-WEIGHTS = {"p_create": 0.5, "p_edit": 0.25, "p_ro": 0.0, "nested": 0.5, "sf": 0.3, "n": 0.15, "dr": 0.05, "i": 0.2, "ii": 0.05}
+WEIGHTS = {"p_create": 0.5, "p_edit": 0.25, "p_ro": 0.0, "nested": 0.5, "sf": 0.3, "n": 0.15, "dr": 0.05, "i": 0.2, "ii": 0.05, "hardlinks": 0.08}
 
 
 def generate(rng, tier):
